@@ -43,6 +43,9 @@ func judgeC16(key string, o *drive.Outcome) h.Result {
 }
 
 func c16Run(tier string, seed uint64, i int) []h.Result {
+	if k := i - c16N(tier); k >= 0 {
+		return c16InlineRun(k)
+	}
 	nc := len(Corpus())
 	var p progSpec
 	opt := drive.Opt{NoCompare: true}
@@ -75,8 +78,8 @@ func init() {
 			"equal the snapshot taken before it; after each expression exactly one operand more; after each function body and closure the scope, current function and the visible label set (LookupLabel of every label name of the function and its " +
 			"enclosing function) are those seen when it was opened. Workload: generated programs nested to depth 8 over all block-forming constructs (func, closure, block, if/else-if, for, range, switch/case/fallthrough, type switch, select, labels, " +
 			"initialisers, const blocks), multi-file splits (file switches between declarations), the corpus, and programs with one ill-typed statement where the front end recovers at statement level (ResetInit inside an initialiser, ResetStmt otherwise) " +
-			"and the laws must hold for everything after. non-trivial = more than 20 operations asserted; distinct by program text",
+			"and the laws must hold for everything after. INLINE CLOSURE CALLS (API-driven, complete in both tiers): arity 0-3 and variadic x 0-3 pending operands of an enclosing call below the arguments x 0-2 results x nesting in 0-3 blocks (if, for, case clause): stack depth after End() = base + pending + results, scope / function / vblock unchanged, stack at base after the enclosing statement, output type-checks. non-trivial = more than 20 operations asserted; distinct by program text",
 		Assume: []string{"the arity table in internal/fe is written from the API documentation and validated on the repository's own corpus", "InternalStack/Scope/Func/InVBlock/LookupLabel are the public observation points"},
-		MinNT:  50, Plan: func(tier string, seed uint64) int { return c16N(tier) }, Run: c16Run,
+		MinNT:  50, Plan: func(tier string, seed uint64) int { return c16N(tier) + len(c16InlineCases()) }, Run: c16Run,
 	})
 }
